@@ -242,7 +242,9 @@ func (b *Bundle) Clone() *Bundle {
 	return &Bundle{
 		IsPermissionToken: b.IsPermissionToken,
 		m:                 new(sync.RWMutex),
-		ts:                parseToks(b.ts.Header()),
+		// re-parse the bare token list: Header() of a Bundle holding only an
+		// empty entry is "FlyV1 ", which parses back as the token "FlyV1"
+		ts: parseToks(b.ts.String()),
 	}
 }
 
